@@ -187,6 +187,9 @@ func buildUnits(r *vlib.Run, prop string, s *harness.Scratch, units []*harness.U
 			continue
 		}
 		u.Scan()
+		if u.WantServices {
+			u.Services = u.AddServiceDriver()
+		}
 		if err := u.WriteDriver(); err != nil {
 			vlib.Fatal(prop, "driver: %v", err)
 		}
@@ -206,6 +209,16 @@ func buildUnits(r *vlib.Run, prop string, s *harness.Scratch, units []*harness.U
 		if u.Bin == "" {
 			r.Count("units_not_compiled", 1)
 			fmt.Printf("NOTE property=%s unit %s (%s:%s) has no guest binary: %s\n", prop, u.Name, u.Backend, strings.Join(u.Opts, ","), vlib.Trunc(strings.Join(append(u.BuildErr, u.DrvErr...), " | "), 400))
+			if len(u.BuildErr) > 0 {
+				// thriftgo accepted the program and wrote code that does not compile: nothing of this
+				// property can hold for it
+				rp := vlib.Replay{"options.txt": u.Backend + ":" + strings.Join(u.Opts, ",") + "\n"}
+				for k, v := range u.Texts {
+					rp["idl/"+k] = v
+				}
+				r.Eval(1)
+				r.Violation(prop+"/generated-code-does-not-compile/"+c01Kind(u.BuildErr[0]), fmt.Sprintf("config [%s:%s]: %s", u.Backend, strings.Join(u.Opts, ","), vlib.Trunc(strings.Join(u.BuildErr, " | "), 1200)), rp)
+			}
 			continue
 		}
 		ok = append(ok, u)
